@@ -1,5 +1,6 @@
 ---- MODULE ParGen ----
-(* Case generator for C18: (pipeline class, key kind, mode, worker count, event stream with interleaved keys). *)
+(* Case generator for C18: (pipeline class, key kind, mode, worker count, event stream with interleaved keys).
+   Key index 0 = the event has no key field (such events form the engine's placeholder partition). *)
 EXTENDS Naturals, Sequences, TLC, Json
 CONSTANTS MaxLen, NKeys
 Classes == {"filter", "chain", "two_streams", "pcount", "pslide", "pagg", "pseq", "pkleene", "pseq_where"}
@@ -7,7 +8,7 @@ VARIABLES cls, kk, mode, nw, stream
 Types(c) == IF c \in {"pseq", "pseq_where"} THEN {"A", "B"} ELSE IF c = "pkleene" THEN {"A", "B", "C"} ELSE IF c = "two_streams" THEN {"A", "B"} ELSE {"A"}
 Init == cls \in Classes /\ kk \in {"str", "int"} /\ mode \in {"preload", "streaming"} /\ nw \in 2..8 /\ stream = <<>>
 Next == /\ Len(stream) < MaxLen
-        /\ \E t \in Types(cls), k \in 1..NKeys, x \in 0..3 : stream' = Append(stream, [type |-> t, k |-> k, x |-> x])
+        /\ \E t \in Types(cls), k \in 0..NKeys, x \in 0..3 : stream' = Append(stream, [type |-> t, k |-> k, x |-> x])
         /\ UNCHANGED <<cls, kk, mode, nw>>
 Emit == Len(stream) = MaxLen => PrintT(<<"CASE", ToJson([cls |-> cls, kk |-> kk, mode |-> mode, nw |-> nw, stream |-> stream])>>)
 ====
